@@ -1,16 +1,12 @@
-// Verification harness: runs the real esbuild code (from /repo's working tree,
-// built with -tags verif) on seeded, structured inputs and writes, per family,
-// a Coq file of cases (inputs together with the observed outputs) that the
-// model evaluates with vm_compute, plus a JSON stats file for the evidence.
-package main
+// Package hlib: shared pieces of the verification harness (PRNG, Coq term
+// printing, stats). Each family is its own binary under harness/cmd/<family>
+// so that one family cannot break the build of another.
+package hlib
 
 import (
 	"encoding/json"
 	"flag"
-	"fmt"
 	"os"
-	"sort"
-	"strings"
 )
 
 type Stats struct {
@@ -23,6 +19,7 @@ type Stats struct {
 	Samples     []interface{}          `json:"samples"`
 	Failures    []Failure              `json:"failures"`
 	Extra       map[string]interface{} `json:"extra,omitempty"`
+	distinct    map[string]bool
 }
 
 // A Failure is a concrete input on which the property's own predicate failed
@@ -34,48 +31,48 @@ type Failure struct {
 	Expect interface{} `json:"expect"`
 }
 
-func newStats(family string, seed uint64) *Stats {
-	return &Stats{Family: family, Seed: seed, Histogram: map[string]int{}, Samples: []interface{}{}, Failures: []Failure{}, Extra: map[string]interface{}{}}
+func NewStats(family string, seed uint64) *Stats {
+	return &Stats{Family: family, Seed: seed, Histogram: map[string]int{}, Samples: []interface{}{}, Failures: []Failure{}, Extra: map[string]interface{}{}, distinct: map[string]bool{}}
 }
 
-func (s *Stats) sample(v interface{}) {
-	if len(s.Samples) < 6 {
+func (s *Stats) Sample(v interface{}) {
+	if len(s.Samples) < 8 {
 		s.Samples = append(s.Samples, v)
 	}
 }
 
-func (s *Stats) fail(what string, input, got, expect interface{}) {
+// Note records one evaluated case of a kind; key identifies the input (for the
+// distinct count); nontrivial says whether it exercises a non-identity path.
+func (s *Stats) Note(kind, key string, nontrivial bool) {
+	s.Evaluations++
+	s.Histogram[kind]++
+	if nontrivial {
+		s.distinct[kind+":"+key] = true
+	}
+}
+
+func (s *Stats) Fail(what string, input, got, expect interface{}) {
 	if len(s.Failures) < 20 {
 		s.Failures = append(s.Failures, Failure{what, input, got, expect})
 	}
 	s.Histogram["FAIL:"+what]++
 }
 
-type family func(seed uint64, n int, tier string, outDir string) []*Stats
+func (s *Stats) Finish(rule string) {
+	s.Distinct = len(s.distinct)
+	s.Rule = rule
+}
 
-var families = map[string]family{}
+type Family func(seed uint64, n int, tier string, outDir string) []*Stats
 
-func main() {
+// Main parses the common flags and runs the family; the driver reads
+// <out>/<name>.stats.json and every <out>/*_cases.v
+func Main(name string, f Family) {
 	seed := flag.Uint64("seed", 1, "PRNG seed")
 	n := flag.Int("n", 500, "case count scale")
 	tier := flag.String("tier", "quick", "quick|thorough")
 	out := flag.String("out", ".", "output directory")
 	flag.Parse()
-	if flag.NArg() < 1 {
-		names := []string{}
-		for k := range families {
-			names = append(names, k)
-		}
-		sort.Strings(names)
-		fmt.Fprintln(os.Stderr, "usage: harness [flags] <family>; families:", strings.Join(names, " "))
-		os.Exit(2)
-	}
-	name := flag.Arg(0)
-	f, ok := families[name]
-	if !ok {
-		fmt.Fprintln(os.Stderr, "unknown family", name)
-		os.Exit(2)
-	}
 	if err := os.MkdirAll(*out, 0o755); err != nil {
 		panic(err)
 	}
